@@ -109,6 +109,7 @@ Fixpoint tok_start (ts : list str) (i : nat) (acc : nat) : nat :=
    acc x<p>               -> n<count> r<is_root> f<front> b<back> sf<tok>,<rest> sb<front>,<tok> pa<parent>
                              t x<enc>:x<dec> ...      (each token, encoded and decoded)
                              (views relative to p; p must be a valid pointer)
+   fus <n>                -> x<text of PointerBuf::from(n usize)>
    wtt x<p> x<raw>        -> x<with_trailing_token>      wlt x<p> x<raw> -> x<with_leading_token> *)
 Definition run_tokens (op : str) (args : list str) : option str :=
   if is_op op "ftok" then
@@ -127,6 +128,11 @@ Definition run_tokens (op : str) (args : list str) : option str :=
            s2b "sb" ++ opt_field (fun '(fr, t) => prefix_view p fr ++ 44 :: suffix_view p t) (split_back p);
            s2b "pa" ++ opt_field (prefix_view p) (parent p);
            s2b "t"] ++ map (fun t => xfield t ++ 58 :: xfield (decoded t)) ts))
+    | _ => None
+    end
+  else if is_op op "fus" then
+    match args with
+    | [f] => do n <- parse_dec f; Some (xfield (SLASH :: dec_of_N n))       (* From<usize>: from_tokens([n]) *)
     | _ => None
     end
   else if is_op op "wtt" then
